@@ -31,6 +31,30 @@ CHECKS = {
     text="At every event of every trace OdeTrace.tla compares nfev with the independent count of completed user right-hand-side calls since construction/reset and njev with the count of Jacobian requests, and checks the callback protocol (order, exactly once per recorded outer step, after the row is visible, assigned dt adopted, none inside the terminal landing); two systems built from one DiffRHS are checked to count separately (TwinJudge.tla).",
     note="Counters come from wrappers installed by the sensor (WrappedRhs, a logging DiffRHS subclass).",
     technique="trace validation against a TLA+ monitor (OdeTrace.tla), TLC design model", design="6/C20"),
+ "C06": dict(level="model_checking",
+    text="OdeSystem.tla: PiecesAreSteps in every reachable state (roll-back, landing on a terminal event, continuation, failure, both directions; deviations keepRolledBackPiece/frontInsert violate it). On the real code OdeTrace.tla tracks the piece list through every add/remove and compares it with the recorded steps; DenseJudge.tla decides, from exact facts sensed on the real solution object, that every grid/mid/quarter-point query is answered by the piece whose interval contains it (the serving piece is observed through a recording proxy), recorded states are reproduced bit for bit (tolerance for Richardson wrappers), scalar and array queries agree, end slopes equal the right-hand side at the piece's end states bit for bit, pieces join, and the mid-step error on rational-solution problems stays within a constant of h^4 M4/384 plus the integrator's error.",
+    note="Histories keep one direction per system. O(h^4) clause on the two rational-solution problems only. Bounds in spec/Bounds.tla.",
+    technique="TLC model checking + trace validation (OdeTrace.tla) + fact judge (DenseJudge.tla)", design="6/C06"),
+ "C07": dict(level="model_checking",
+    text="OdeSystem.tla: EventsAreRoots, NoEventTwice (boundary roots shared by two steps / two events; deviation dedupByPosition violates it), TerminalStop. Every scenario of the event lattice (time/state/derivative events, scales 1e-18..1e6, directions, up to 6 simultaneous events, interior/boundary/last-ulp/unrepresentable roots, all families, both directions, dense on/off) is traced: OdeTrace.tla checks each recorded event inside its step, ordered along the direction, unique; EventJudge.tla decides residual, equality with the dense solution, distance to the true root, direction compatibility and uniqueness against the ground truth the scenario defines.",
+    note="True-root distance for time events and for state events on y'=-y^2 only; on backward runs a direction is accepted under either reading.",
+    technique="TLC model checking + trace validation (OdeTrace.tla) + fact judge (EventJudge.tla)", design="6/C07"),
+ "C08": dict(level="model_checking",
+    text="The antecedent of the property is observed directly: every event function is evaluated at every pair of consecutive recorded rows; EventJudge.tla requires for every strict sign change (with a direction the function requests) at least one recorded event of that function inside that step, and for time events that every root the scenario defines inside the integrated range is reported; scales over 24 decades, both directions, large |t|, dense on/off, 1..6 events; design-level model as C07.",
+    note="With a requested direction a backward crossing is not demanded (the two readings of 'direction' disagree there).",
+    technique="TLC model checking + fact judge (EventJudge.tla) over traces of the real code", design="6/C08"),
+ "C12": dict(level="fault_enumeration",
+    text="Every position k of the failing call among all right-hand-side / event / callback invocations of short runs is a separate execution of the real code (all k up to a cap, else first/last and a seeded sample), with second faults, KeyboardInterrupt, resume and reset; each trace is validated by OdeTrace.tla (error type and cause chain, status, trimmed paired finite prefix that equals the committed rows, dense pieces exactly those steps, resume reaches the target, reset pristine) and the resumed result is compared with the undisturbed run by TwinJudge.tla; OdeSystem.tla with FAULTS=TRUE lets TLC visit every crash point of every short history at design level.",
+    note="Faults are injected through wrapped user callables only. Bit-for-bit resume only for fixed-step explicit/splitting runs without events/callbacks, tolerance elsewhere.",
+    technique="exhaustive crash-point enumeration on the real code judged by TLA+ (OdeTrace.tla, TwinJudge.tla) + TLC design model with a Fault action", design="6/C12"),
+ "C13": dict(level="model_checking",
+    text="OdeSystem.tla: ResetRestores for every reachable prior state and CallAtTargetChangesNothing (deviation resetKeepsEvents violates it). Histories over {integrate(), integrate(t), set dt/rtol/atol/method/tf, set_kick_vars, events, faults} followed by reset() are traced and validated by OdeTrace.tla (C13.*), and the suffix is re-run on a freshly constructed twin: TwinJudge.tla requires rows, mid-step dense values and events to be identical bit for bit; splits of the span at grid points must reproduce the unsplit run.",
+    note="The twin is built with the constructor arguments plus the tolerance/method/tf/kick settings the history applied. njev across reset not compared.",
+    technique="TLC model checking + trace validation (OdeTrace.tla) + twin-run judge (TwinJudge.tla)", design="6/C13"),
+ "C19": dict(level="model_checking",
+    text="LookupIdx.tla: TLC checks the reference operators IndexInt / NearestRows on every increasing and decreasing grid of the small scope; on grids produced by real runs (uniform, callback-made non-uniform, adaptive, backward, after continuation with an intermediate user lookup, dense on/off) every integer index in [-len-2, len+2], iteration, len, ~5 query times per step plus 4 outside and spanning slices are executed and decided by GetItemJudge.tla against those operators (distances as exact rationals).",
+    note="Ties in nearest-sample lookup may be answered by either neighbour; slices are taken along the run.",
+    technique="TLC small-scope model + exhaustive per-grid replay judged by TLA+ (GetItemJudge.tla)", design="6/C19"),
 }
 
 NOT_YET = "check not built yet (work in progress, see DESIGN.md section 11)"
